@@ -155,7 +155,26 @@ def _policy(name: str) -> Any:
         return ResponsePolicy()
     if name == "response-2":
         return ResponsePolicy(num_bundles=2)
+    # an explicit policy: "request:{…json…}" / "response:{…json…}" (the options as a configuration file names them)
+    if name.startswith("request:"):
+        return RequestPolicy.from_dict(json.loads(name[len("request:") :]))
+    if name.startswith("response:"):
+        return ResponsePolicy.from_dict(json.loads(name[len("response:") :]))
     raise KeyError(name)
+
+
+def _verdicts(validate: Any, obj: Any, names: list[str], now: int | None) -> dict[str, Any]:
+    """the verdict of validation of an already parsed object under each named policy (clock pinned)"""
+    out: dict[str, Any] = {}
+    for name in names:
+        with lib.PinnedClock() as clock:
+            if now is not None:
+                clock.now_us = now
+            try:
+                out[name] = {"ok": validate(obj, _policy(name)) is True}
+            except Exception as exc:  # noqa: BLE001
+                out[name] = _classify(exc)
+    return out
 
 
 def _classify(exc: BaseException) -> dict[str, Any]:
@@ -215,16 +234,28 @@ def _impl(p: dict[str, Any], scratch: Path) -> dict[str, Any]:
         from kskm.ksr.load import request_from_xml
 
         try:
-            return {"outcome": {"ok": canon_obj(lib.request_j(request_from_xml(p["text"])))}}
+            obj = request_from_xml(p["text"])
+            out_r: dict[str, Any] = {"outcome": {"ok": canon_obj(lib.request_j(obj))}}
         except Exception as exc:  # noqa: BLE001
             return {"outcome": _classify(exc)}
+        if p.get("validate"):
+            from kskm.ksr.validate import validate_request
+
+            out_r["verdicts"] = _verdicts(validate_request, obj, p["validate"], p.get("now"))
+        return out_r
     if kind == "response_from_xml":
         from kskm.skr.load import response_from_xml
 
         try:
-            return {"outcome": {"ok": canon_obj(lib.response_j(response_from_xml(p["text"])))}}
+            obj = response_from_xml(p["text"])
+            out_s: dict[str, Any] = {"outcome": {"ok": canon_obj(lib.response_j(obj))}}
         except Exception as exc:  # noqa: BLE001
             return {"outcome": _classify(exc)}
+        if p.get("validate"):
+            from kskm.skr.validate import validate_response
+
+            out_s["verdicts"] = _verdicts(validate_response, obj, p["validate"], p.get("now"))
+        return out_s
     if kind in ("load_ksr", "load_skr"):
         import kskm.common.signature as sigmod
         import kskm.ksr.load as kload
